@@ -116,7 +116,8 @@ def gen_set_order(tier):
     h.attrs = [STUB_RS] + STUB_DH
     h.rec_limit = 2
     h.tier = "off"
-    h.off_reason = "IndexSet (hashbrown) construction: no verdict in 600 s, also under the all-colliding hasher stub"
+    h.off_reason = ("IndexSet construction inside mech-core (default features) + seahash per element: no verdict in 600 s with hashbrown, and no "
+                    "verdict in 600 s / 6.5 GB with the IndexSet list model (measured 2026-09-25)")
     return h
 
 
@@ -136,7 +137,8 @@ def gen_from_vec(tier):
     h.attrs = [STUB_RS] + STUB_DH
     h.rec_limit = 1
     h.tier = "off"
-    h.off_reason = "IndexSet (hashbrown) construction: no verdict in 600 s, also under the all-colliding hasher stub"
+    h.off_reason = ("IndexSet construction inside mech-core (default features): no verdict in 600 s with hashbrown (also under the all-colliding hasher "
+                    "stub), and no verdict in 600 s / 7.6 GB with the IndexSet list model (measured 2026-09-25)")
     return h
 
 
